@@ -35,6 +35,16 @@ func Run(sc *Scenario) *Outcome {
 	w.Probe = fakes.NewProbe(sc.Seed)
 	w.Probe.DelayPermille = sc.ProbePM
 	w.Probe.MaxDelay = time.Duration(sc.ProbeMaxMS) * time.Millisecond
+	if len(sc.ParkAt) > 0 {
+		w.Probe.Script = map[string]map[int]time.Duration{}
+		for msg, ms := range sc.ParkAt {
+			occ := map[int]time.Duration{}
+			for k := 1; k <= 200; k++ {
+				occ[k] = time.Duration(ms) * time.Millisecond
+			}
+			w.Probe.Script[msg] = occ
+		}
+	}
 	ctx, cancel := context.WithCancel(context.Background())
 	scc := config.ShardCountConfig{Mode: config.ShardCountRouting, LocalShardCount: int32(sc.NL), RemoteShardCount: int32(sc.NR)}
 	sm := proxy.NewShardManager(nil, scc, encryption.TLSConfig{}, w.Probe)
@@ -62,6 +72,10 @@ func Run(sc *Scenario) *Outcome {
 					var id, shard int
 					fmt.Sscanf(strings.Replace(strings.Replace(f.Stream, "L:", "1 ", 1), "R:", "2 ", 1), "%d %d", &id, &shard)
 					if f.Side == "target" {
+						if w.Rec.tgtFaultAt == nil {
+							w.Rec.tgtFaultAt = map[string]int64{}
+						}
+						w.Rec.tgtFaultAt[f.Stream] = w.Rec.now()
 						w.breakTarget(f.Stream)
 					} else {
 						go w.cluster(id).breakSource(shard)
